@@ -233,7 +233,7 @@ func init() {
 			return s
 		},
 		Run:  c09Run,
-		Rule: "nestings of {for over a slice / an Iterator / a map, user-function call, partial with data, contentFor+contentOf with data, contentOf default block with data, block helper using BlockWith(child), block helper using Block(), if, contentFor defined at top level and used at the inner level, one contentFor block used twice (with and without data), one data map held in a variable and passed to two partial calls}; at each level every subset of {let fresh_l, shadowing let o, assignment o = …}; every name (o, fresh names, loop variables, parameters, data names of every level) is probed at the end of each body, after each construct closes and at the end of the template; compared with an environment-chain reference model (let/assign bind in the current scope, lookup outward; for/call/partial/contentOf/BlockWith open a scope, if and Block() do not; a far contentFor block runs in a child of its definition scope). (repeat) every scope-opening construct entered twice or more from the same place (a function called from two tags / from every loop iteration / recursively, a partial and a contentOf rendered twice, a partial that renders its own text recursively with the cache off and on, a loop run twice, BlockWith twice): the body reads a name BEFORE its own let of that name, or lets it on one path only - every entry must see the outer value (or nothing), never what an earlier entry (of this or another function) bound; a name bound to nil inside (loop variable, parameter, let, partial / contentOf data) hides the same-named outer variable. Non-trivial: depth >= 2 with at least one binding action.",
+		Rule: "nestings of {for over a slice / an Iterator / a map, user-function call, partial with data, contentFor+contentOf with data, contentOf default block with data, block helper using BlockWith(child), block helper using Block(), if, contentFor defined at top level and used at the inner level, one contentFor block used twice (with and without data), one data map held in a variable and passed to two partial calls}; at each level every subset of {let fresh_l, shadowing let o, assignment o = …}; every name (o, fresh names, loop variables, parameters, data names of every level) is probed at the end of each body, after each construct closes and at the end of the template; compared with an environment-chain reference model (let/assign bind in the current scope, lookup outward; for/call/partial/contentOf/BlockWith open a scope, if and Block() do not; a far contentFor block runs in a child of its definition scope). (repeat) every scope-opening construct entered twice or more from the same place (a function called from two tags / from every loop iteration / recursively, a partial and a contentOf rendered twice, a partial that renders its own text recursively with the cache off and on, a loop run twice, BlockWith twice): the body reads a name BEFORE its own let of that name, or lets it on one path only - every entry must see the outer value (or nothing), never what an earlier entry (of this or another function) bound; an outer variable / context value named like a built-in helper read two and three scopes down (function in function, loop in function, partial in partial); a name bound to nil inside (loop variable, parameter, let, partial / contentOf data) hides the same-named outer variable. Non-trivial: depth >= 2 with at least one binding action.",
 		Bound: func(th bool) string {
 			if th {
 				return "depth <=3, all 8 action subsets per level"
@@ -323,6 +323,8 @@ func c09Repeat(t *engine.T) {
 		{"contentOf default block rendered per iteration", `<%= for (i) in [1, 2, 3] { %><%= contentOf("undefined", {"n": i}) { %><% if (n == 1) { let t = "T" } %><%= if (t) { %>F<% } else { %>-<% } %><%= n %><% } %> <% } %>`, "F1 -2 -3 "},
 		{"loop body lets a name after probing it, loop run twice", `<% let x = "outer" %><%= for (k) in [1, 2] { %><%= for (i) in [1] { %>` + probeX + `/<% let x = "inner" %>` + probeX + `,<% } %><% } %>|<%= x %>`, "outer/inner,outer/inner,|outer"},
 		{"BlockWith(child) twice by one helper", `<% let x = "outer" %><%= twice() { %>` + probeX + `/<% let x = "inner" %>` + probeX + `,<% } %>|<%= x %>`, "outer/inner,outer/inner,|outer"},
+		{"an outer variable named like a built-in helper stays readable two and three scopes down", `<% let len = "L" %><% let truncate = "T" %><% let g = fn() { return len + truncate } %><% let f = fn() { return g() + "/" + len } %><% let h = fn() { %><%= for (i) in [1] { %><%= len %><%= f() %><% } %><% } %><%= g() %>|<%= f() %>|<%= h() %>|<%= partial("plen2") %>|<%= len %>`, "LT|LT/L|LLT/L|[L(LT)]|L"},
+		{"context data named like a built-in helper stays readable two and three scopes down", `<% let g = fn() { return env } %><% let f = fn() { return g() + "/" + env } %><%= f() %>|<%= for (i) in [1] { %><%= f() %><% } %>|<%= partial("penv2") %>`, "staging/staging|staging/staging|[staging(staging)]"},
 		{"one function's let does not show in another function's body", `<% let t = "outer" %><% let f = fn() { let t = "two"
  return t } %><% let g = fn() { return t } %><% let h = fn(t) { return t } %><%= g() %>|<%= f() %>|<%= g() %>|<%= h("p") %>|<%= g() %>|<%= t %>`, "outer|two|outer|p|outer|outer"},
 		{"a loop variable bound to nil hides the outer variable", `<% let x = "outer" %><%= for (x) in mixednil { %>[<%= if (x) { %><%= x %><% } else { %>nil<% } %>]<% } %>|<%= x %>`, "[1][nil][3]|outer"},
@@ -367,8 +369,11 @@ func c09Repeat(t *engine.T) {
 				"px":   `<%= x %>/<% let x = "inner" %><%= x %>`,
 				"pt":   `<% if (n == 1) { let t = "T" } %><%= if (t) { %>F<% } else { %>-<% } %><%= n %>`,
 				"pnil": `<%= if (x) { %><%= x %><% } else { %>nil<% } %>`,
+				"plen2": `[<%= len %><%= partial("plen3") %>]`, "plen3": `(<%= len %><%= truncate %>)`,
+				"penv2": `[<%= env %><%= partial("penv3") %>]`, "penv3": `(<%= env %>)`,
 			})
 			ctx.Set("mixednil", []interface{}{1, nil, 3})
+			ctx.Set("env", "staging") // named like the built-in helper env
 			ctx.Set("twice", func(help plush.HelperContext) (template.HTML, error) {
 				a, err := help.BlockWith(help.New())
 				if err != nil {
